@@ -70,7 +70,11 @@ func ReplaceColumn(oldName, newName string) Rule {
 
 // AddSelectStar returns a Rule that adds * to the SELECT columns.
 func AddSelectStar() Rule {
-	return AddColumn(&ast.Identifier{Name: "*"})
+	// a node of its own for every statement the rule is applied to: trees that
+	// shared one would change (and be released) together
+	return RuleFunc(func(stmt ast.Statement) error {
+		return AddColumn(&ast.Identifier{Name: "*"}).Apply(stmt)
+	})
 }
 
 // columnMatches checks if a column expression matches the given name.
